@@ -116,6 +116,11 @@ VARIANTS[("sets2", "any", 0)] = (_fs_rev(8, 16, 0), 1)
 VARIANTS[("sets2", "any", 1)] = (1, (_fs_rev("ab", "ba", "c"),))
 VARIANTS[("sets2", "any", 2)] = _fs_rev(_fs_rev(8, 16), 3)
 
+# strings that differ only in the length of a run of blanks (C08: white space inside a regex literal is significant,
+# between the tokens of a pattern it is not)
+POOLSETS["ws"] = dict(POOLSETS["plain"])
+POOLSETS["ws"]["str"] = ["a b", "a  b", "b"]
+
 # non-init property defaults of the zoo (atom 0 is the dataclass default)
 FIXED: dict = {}
 
